@@ -504,6 +504,7 @@ theorem Inv1.step {s : AState} (i : Inv1 s) (op : Op) (hop : OpOK s.key op) : In
     · exact i0
     · rename_i a ha
       exact Inv1.resume i0 _ _ _ _ _ (stored_full (i.acctOK a ha))
+  | flush => exact Inv1.setW i _
   | recover a known =>
     simp only [Pool.C08.step]
     obtain ⟨h1, h2, h3⟩ := hop
